@@ -2,6 +2,7 @@ package sx
 
 import (
 	"fmt"
+	"go/types"
 	"hash/crc32"
 	"strings"
 
@@ -205,4 +206,138 @@ func (in *Interp) varintSize(x *Term) (*Term, bool) {
 		}
 	}
 	return ts.BVConst(64, 10), true
+}
+
+// callSync calls fv from inside an intrinsic and runs the calling thread until the call has returned.
+func (in *Interp) callSync(th *Thread, fv FuncV, args []Value) Value {
+	base := th.top
+	idx := len(base.locals)
+	base.locals = append(base.locals, nil)
+	in.callValue(th, fv, args, int32(idx), false, nil)
+	for th.top != base {
+		if th.top == nil {
+			panic(abortf("callSync: thread ended inside a nested call"))
+		}
+		in.safeStep(th)
+		if th.blocked != nil {
+			panic(abortf("callSync: nested call blocked: %s", th.blocked.why))
+		}
+	}
+	res := base.locals[idx]
+	base.locals = base.locals[:idx]
+	return res
+}
+
+func init() {
+	// sort.Slice / sort.SliceStable: insertion sort through the caller's less function (the library goes
+	// through reflect to swap elements)
+	reg(`sort.Slice sort.SliceStable`, func(in *Interp, th *Thread, fn *ssa.Function, a []Value) (Value, bool) {
+		iv, ok := a[0].(Iface)
+		if !ok {
+			panic(abortf("sort.Slice: unexpected argument %T", a[0]))
+		}
+		s, ok := iv.V.(Slice)
+		if !ok {
+			panic(abortf("sort.Slice: not a slice"))
+		}
+		less := a[1].(FuncV)
+		for i := 1; i < s.Len; i++ {
+			for j := i; j > 0; j-- {
+				r := in.callSync(th, less, []Value{in.i64(int64(j)), in.i64(int64(j - 1))})
+				if !in.branch(in.asTerm(r), "sort less") {
+					break
+				}
+				in.access(slotKey{agg: s.Arr, idx: s.Off + j}, true)
+				in.access(slotKey{agg: s.Arr, idx: s.Off + j - 1}, true)
+				s.Arr.V[s.Off+j], s.Arr.V[s.Off+j-1] = s.Arr.V[s.Off+j-1], s.Arr.V[s.Off+j]
+			}
+		}
+		return nil, true
+	})
+}
+
+// deepEq: reflect.DeepEqual on engine values (scalars, strings, slices, structs/arrays, pointers).
+func (in *Interp) deepEq(x, y Value, depth int) *Term {
+	ts := in.ts
+	if depth > 20 {
+		panic(abortf("reflect.DeepEqual: too deep"))
+	}
+	switch a := x.(type) {
+	case *Term:
+		b, ok := y.(*Term)
+		if !ok || a.Sort != b.Sort {
+			return ts.False
+		}
+		return ts.Eq(a, b)
+	case Str:
+		b, ok := y.(Str)
+		if !ok {
+			return ts.False
+		}
+		return in.strEq(a, b)
+	case Slice:
+		b, ok := y.(Slice)
+		if !ok || a.Nil != b.Nil || a.Len != b.Len {
+			return ts.False
+		}
+		res := ts.True
+		for i := 0; i < a.Len; i++ {
+			res = ts.And(res, in.deepEq(a.Arr.V[a.Off+i], b.Arr.V[b.Off+i], depth+1))
+		}
+		return res
+	case *Agg:
+		b, ok := y.(*Agg)
+		if !ok || len(a.V) != len(b.V) {
+			return ts.False
+		}
+		res := ts.True
+		for i := range a.V {
+			res = ts.And(res, in.deepEq(a.V[i], b.V[i], depth+1))
+		}
+		return res
+	case Ptr:
+		b, ok := y.(Ptr)
+		if !ok {
+			return ts.False
+		}
+		if a.IsNil() || b.IsNil() {
+			return ts.Bool(a.IsNil() && b.IsNil())
+		}
+		if a.Base == b.Base && a.Idx == b.Idx {
+			return ts.True
+		}
+		return in.deepEq(a.Base.V[a.Idx], b.Base.V[b.Idx], depth+1)
+	case Iface:
+		b, ok := y.(Iface)
+		if !ok {
+			return ts.False
+		}
+		if a.T == nil || b.T == nil {
+			return ts.Bool(a.T == nil && b.T == nil)
+		}
+		if !types.Identical(a.T, b.T) {
+			return ts.False
+		}
+		return in.deepEq(a.V, b.V, depth+1)
+	case nil:
+		return ts.Bool(y == nil)
+	}
+	panic(abortf("reflect.DeepEqual: unsupported value %T", x))
+}
+
+func init() {
+	reg(`reflect.DeepEqual`, func(in *Interp, th *Thread, fn *ssa.Function, a []Value) (Value, bool) {
+		return in.deepEq(a[0], a[1], 0), true
+	})
+}
+
+func init() {
+	// math/rand: an arbitrary value in range (the code under test only draws election timeouts)
+	randIntn := func(in *Interp, th *Thread, fn *ssa.Function, a []Value) (Value, bool) {
+		n := in.asTerm(a[len(a)-1])
+		v := in.fresh("rand", "clock", BV(64)) // kind "clock": skipped by native replays (not a harness input)
+		in.assume(in.ts.And(in.ts.Cmp(OSLe, in.i64(0), v), in.ts.Cmp(OSLt, v, in.sameWidth(n, v))))
+		return v, true
+	}
+	reg(`(*math/rand.Rand).Intn math/rand.Intn (*math/rand.Rand).Int63n math/rand.Int63n`, randIntn)
 }
